@@ -8,7 +8,8 @@ from vlib import c21_lib
 
 ID = 'C21'
 LEVEL = 'exploration'
-RULE = ('A case = initial data (3 parents, 4 children, 3 tags, links) + a reader script (attribute reads, to_dict, load, len / '
+RULE = ('A case = initial data (3 parents, 4 children, 3 tags, links) + a reader script (attribute reads, to_dict, load, own '
+        'assignments of scalar attributes with flush / commit() in the middle of the db_session, len / '
         'iteration / count / in / is_empty / bool / load of collections on both sides of the many-to-many and on the one-to-many, '
         're-fetching queries with fresh parameters: whole tables, children of a parent, collection.select(), prefetch of '
         'collections and references, (object, reference) pairs, get/index, and "read again everything observed so far") + 1-2 '
@@ -19,7 +20,7 @@ RULE = ('A case = initial data (3 parents, 4 children, 3 tags, links) + a reader
         'concurrent change, then count()/len()/is_empty()/in). Oracle: for every (object, non-volatile '
         'attribute) and every collection that has been completely loaded and observed (len or iteration), each later read by the '
         'same session (attribute, len, iteration, and for such collections count / in / is_empty / bool) equals the first '
-        'observation; a read may instead raise UnrepeatableReadError (or a lock error); an internal error (AssertionError, '
+        'observation (an attribute the session assigned itself counts as observed with the assigned value from then on); a read may instead raise UnrepeatableReadError (or a lock error); an internal error (AssertionError, '
         'KeyError, ...) from inside Pony is a violation. Non-trivial = the committed value behind an observed key changed after '
         'its first observation and the reader read it again afterwards or was stopped by UnrepeatableReadError; distinct by case hash.')
 ASSUMPTIONS = ['SQLite only (file database, timeout=0)',
@@ -122,6 +123,12 @@ def race_strategy():
             change = draw(st.sampled_from([['sett', a, 0, draw(c)], ['delt', a, 0, 0]]))
         refetch = draw(st.lists(st.tuples(st.just('query'), c, c, c).map(list), min_size=1, max_size=3))
         pre = draw(rfill)
+        # obtaining the observed object again (identity-map lookups, queries filtering on another attribute)
+        ent_of = {'kids': 'P', 'tags': 'P', 'ps': 'T', 'pattr': 'P', 'kattr': 'K', 'kp': 'K', 'tattr': 'T'}[target]
+        kinds = [c21_lib.QUERY_KINDS.index(k) for k in c21_lib.LOOKUP_KINDS[ent_of]]
+        again = draw(st.lists(st.tuples(st.just('query'), st.sampled_from(kinds), st.just(a), c).map(list), max_size=2))
+        obs = obs + again
+        refetch = draw(st.lists(st.tuples(st.just('query'), st.sampled_from(kinds), st.just(a), c).map(list), max_size=1)) + refetch
         reader_ops = pre + obs + draw(rfill) + refetch + [['reread', 0, 0, 0]] + draw(rfill)
         writer_ops = draw(wfill) + [change] + draw(wfill)
         actors = [{'session': {}, 'ops': reader_ops, 'end': 'commit'}, {'session': {}, 'ops': writer_ops, 'end': 'commit'}]
@@ -179,6 +186,50 @@ def batch_strategy():
     return build()
 
 
+def writeback_strategy():
+    """the reading session assigns an attribute itself (optionally after / before reading it, optionally reading it back while
+    dirty), flushes or commits in the middle of the db_session and goes on; another session commits a different value for the
+    same attribute; the first session re-fetches rows and reads the attribute again"""
+    st, c, rop, wop, data, layout, schedule = _strategies()
+    rfill = st.lists(rop, max_size=1)
+
+    @st.composite
+    def build(draw):
+        enti = draw(st.integers(0, 2))                       # P, K, T
+        ent = ['P', 'K', 'T'][enti]
+        pki = draw(st.integers(0, 2))
+        attrs = c21_lib.WRITABLE[ent]
+        ai = draw(st.integers(0, len(attrs) - 1))
+        attr = attrs[ai]
+        vc = draw(st.integers(0, 3))
+        read_ent = {'P': 0, 'K': 1, 'T': 2}[ent]
+        read_ai = c21_lib.ENT_ATTRS[ent].index(attr)
+        readop = ['attr', read_ent, pki, read_ai]
+        before = draw(st.sampled_from([[], [], [readop], [['attr', read_ent, pki, (read_ai + 1) % len(c21_lib.ENT_ATTRS[ent])]]]))
+        back = draw(st.sampled_from([[], [readop]]))
+        sep = draw(st.sampled_from([[['commit']], [['commit']], [['flush'], ['commit']], [['flush']], []]))
+        after = draw(st.sampled_from([[], [], [readop]]))
+        mine = before + [['wattr', enti, pki, ai, vc]] + back + sep + after
+        refetch = draw(st.lists(st.tuples(st.just('query'), c, c, c).map(list), min_size=1, max_size=2))
+        rest = refetch + [draw(st.sampled_from([readop, ['reread', 0, 0, 0], ['todict', enti, pki, 0]]))] + draw(rfill)
+        other = vc + draw(st.integers(1, 3))                 # a different value
+        if ent == 'P':
+            change = ['setp', pki, c21_lib.P_ATTRS.index(attr), other]
+        elif ent == 'K':
+            change = ['setk', pki, 1 if attr == 'n' else 0, other]
+        else:
+            change = ['sett', pki, 0, other]
+        writer_ops = [change] + draw(st.lists(wop, max_size=1))
+        actors = [{'session': {}, 'ops': mine + rest, 'end': 'commit'}, {'session': {}, 'ops': writer_ops, 'end': 'commit'}]
+        sch = [0] * len(mine) + [1] * (len(writer_ops) + 1) + [0] * (len(rest) + 1)
+        for pos, val in draw(st.lists(st.tuples(st.integers(0, len(sch) - 1), st.integers(0, 1)), max_size=2)):
+            sch[pos] = val
+        if draw(st.integers(0, 5)) == 0:
+            sch = draw(schedule)
+        return {'layout': draw(layout), 'data': draw(data), 'actors': actors, 'schedule': sch}
+    return build()
+
+
 def run(ctx):
     env = c21_lib.Env(ctx.workdir)
 
@@ -200,6 +251,8 @@ def run(ctx):
             ctx.run_test(t, {'case': race_strategy()}, max_examples=ctx.scale(450, 900), name='races')
         if ctx.violation is None:
             ctx.run_test(t, {'case': batch_strategy()}, max_examples=ctx.scale(200, 400), name='batches')
+        if ctx.violation is None:
+            ctx.run_test(t, {'case': writeback_strategy()}, max_examples=ctx.scale(200, 400), name='writeback')
     finally:
         env.close()
 
